@@ -39,9 +39,27 @@ VARIABLES pc,        \* caller -> gate it is parked at
           owner,     \* caller that holds the flag (0 = nobody) -- ghost
           popped,    \* ids in the order they were popped               -- history
           ticks,     \* id -> tick it was given                        -- history
-          results    \* id -> "queued" | "executed" | "none"            -- history
+          results,   \* id -> "queued" | "executed" | "none"            -- history
+          wq         \* queue ticks whose WhenQueue(tick) channel is open (subs.whenQueue bindings)
 
-vars == <<pc, k, queue, qtick, pending, qlen, processing, owner, popped, ticks, results>>
+vars == <<pc, k, queue, qtick, pending, qlen, processing, owner, popped, ticks, results, wq>>
+
+(* What the popped transition turns out to be (processQueue, "parse wait      *)
+(* chans", machine.go:2113-2131 has one branch per outcome):                   *)
+(*   "changed"  accepted, some clock tick moved   -> processSubscriptions      *)
+(*   "noop"     accepted, NO clock tick moved (add of an active non-Multi      *)
+(*              state, remove of an inactive state) -> processSubscriptions    *)
+(*   "canceled" vetoed by a negotiation handler   -> subs.ProcessWhenQueue     *)
+(* Codes: 10*caller + k for mutation k of a caller, 100 + 10*caller + k for    *)
+(* the Add nested by its handler.  These are definitions (not CONSTANTS) so    *)
+(* that a model without them needs no cfg entry; a .cfg overrides them with    *)
+(* `NoopCodes = {..}`.                                                          *)
+NoopCodes == {}
+VetoCodes == {}
+(* the code as it is: an accepted transition that moved no clock still has its *)
+(* queue-tick waiters matched (the queue tick HAS moved).  FALSE = "match      *)
+(* subscriptions only when the clock moved" (predicts WhenQueueClosed false)   *)
+SubsOnNoop == TRUE
 
 NestOf == {<<c, i>> : c \in Callers, i \in 1..MutsPer} \cap
           {x \in Callers \X (1..MutsPer) : 10 * x[1] + x[2] \in NestCodes}
@@ -51,6 +69,14 @@ IsPrep(c, i) == 10 * c + i \in PrepCodes
 Id(c, i) == <<c, i>>                \* mutation i of caller c
 NestId(c, i) == <<c, i, "nested">>
 
+Code(id) == IF Len(id) = 3 THEN 100 + 10 * id[1] + id[2] ELSE 10 * id[1] + id[2]
+Outcome(id) == IF Code(id) \in VetoCodes THEN "canceled"
+               ELSE IF Code(id) \in NoopCodes THEN "noop" ELSE "changed"
+(* the WhenQueue bindings that the end of a transition with outcome o closes,  *)
+(* the machine's queue tick being qt: all those at or below it                 *)
+AfterTx(o, w, qt) ==
+  IF o = "noop" /\ ~SubsOnNoop THEN w ELSE {t \in w : t > qt}
+
 Init ==
   /\ pc = [c \in Callers |-> "start"]
   /\ k = [c \in Callers |-> 1]
@@ -59,6 +85,7 @@ Init ==
   /\ popped = <<>>
   /\ ticks = <<>>      \* grows as a function id -> tick
   /\ results = <<>>
+  /\ wq = {}
 
 Assign(f, x, v) == [y \in DOMAIN f \cup {x} |-> IF y = x THEN v ELSE f[y]]
 
@@ -72,7 +99,7 @@ QAppend(c) ==
   /\ pending' = pending + 1
   /\ qlen' = qlen + 1
   /\ pc' = [pc EXCEPT ![c] = "qm.done"]
-  /\ UNCHANGED <<k, qtick, processing, owner, popped, results>>
+  /\ UNCHANGED <<k, qtick, processing, owner, popped, results, wq>>
 
 (* Eval / CanAdd / CanRemove: PrependMut (machine.go:813-852) puts the entry  *)
 (* at the FRONT without a queue tick and falls straight into processQueue;    *)
@@ -82,14 +109,14 @@ Prepend(c) ==
   /\ queue' = <<[id |-> Id(c, k[c]), tick |-> 0]>> \o queue
   /\ qlen' = qlen + 1
   /\ pc' = [pc EXCEPT ![c] = "pq.enter"]
-  /\ UNCHANGED <<k, qtick, pending, processing, owner, popped, ticks, results>>
+  /\ UNCHANGED <<k, qtick, pending, processing, owner, popped, ticks, results, wq>>
 
 (* processQueue entry: `if m.queueLen.Load() == 0 return Canceled`             *)
 Enter(c) ==
   /\ pc[c] = "qm.done"
   /\ pc' = [pc EXCEPT ![c] = IF qlen = 0 THEN "return" ELSE "pq.enter"]
   /\ results' = IF qlen = 0 THEN Assign(results, Id(c, k[c]), "canceled-empty") ELSE results
-  /\ UNCHANGED <<k, queue, qtick, pending, qlen, processing, owner, popped, ticks>>
+  /\ UNCHANGED <<k, queue, qtick, pending, qlen, processing, owner, popped, ticks, wq>>
 
 Cas(c) ==
   /\ pc[c] = "pq.enter"
@@ -98,11 +125,16 @@ Cas(c) ==
           /\ UNCHANGED <<processing, owner>>
      ELSE /\ processing' = TRUE /\ owner' = c
           /\ pc' = [pc EXCEPT ![c] = "pq.casWon"]
-  /\ UNCHANGED <<k, queue, qtick, pending, qlen, popped, ticks, results>>
+  /\ UNCHANGED <<k, queue, qtick, pending, qlen, popped, ticks, results, wq>>
 
+(* the public call returns the queue tick; the caller subscribes               *)
+(* WhenQueue(tick) at once: `if m.queueTick >= tick` the channel is born       *)
+(* closed, else a binding is kept (machine.go:696-711)                         *)
 Lost(c) ==
   /\ pc[c] = "pq.casLost"
   /\ results' = Assign(results, Id(c, k[c]), "queued")
+  /\ wq' = IF Id(c, k[c]) \in DOMAIN ticks /\ ticks[Id(c, k[c])] > qtick
+            THEN wq \cup {ticks[Id(c, k[c])]} ELSE wq
   /\ pc' = [pc EXCEPT ![c] = "return"]
   /\ UNCHANGED <<k, queue, qtick, pending, qlen, processing, owner, popped, ticks>>
 
@@ -120,21 +152,26 @@ PopOrExit(c, q, ql, pd, qt, pp) ==
 FirstPop(c) ==
   /\ pc[c] = "pq.casWon"
   /\ PopOrExit(c, queue, qlen, pending, qtick, popped)
-  /\ UNCHANGED <<k, processing, owner, ticks, results>>
+  /\ UNCHANGED <<k, processing, owner, ticks, results, wq>>
 
-(* run the popped transition (its handler may nest one Add: appended with a    *)
-(* tick, CAS lost, Queued), then loop test and next pop                       *)
+(* run the popped transition (its State handler - which runs only when the    *)
+(* transition really activates the state - may nest one Add: appended with a  *)
+(* tick, CAS lost, Queued, WhenQueue subscribed), then the wait channels of    *)
+(* the transition's outcome, then loop test and next pop.  An Eval / check     *)
+(* (no queue tick) `continue`s before the wait channels.                       *)
 RunThenPop(c) ==
   /\ pc[c] = "pq.popped"
   /\ LET id == IF popped = <<>> THEN <<0, 0>> ELSE popped[Len(popped)]
-         nests == Len(id) = 2 /\ id \in NestOf
+         nests == Len(id) = 2 /\ id \in NestOf /\ Outcome(id) = "changed"
          nid == NestId(id[1], id[2])
          t == pending + 1 + qtick
          q2 == IF nests THEN Append(queue, [id |-> nid, tick |-> t]) ELSE queue
          ql2 == IF nests THEN qlen + 1 ELSE qlen
          pd2 == IF nests THEN pending + 1 ELSE pending
+         w2 == IF nests THEN wq \cup {t} ELSE wq
      IN /\ ticks' = IF nests THEN Assign(ticks, nid, t) ELSE ticks
         /\ results' = IF nests THEN Assign(results, nid, "queued") ELSE results
+        /\ wq' = IF id \in DOMAIN ticks THEN AfterTx(Outcome(id), w2, qtick) ELSE w2
         /\ PopOrExit(c, q2, ql2, pd2, qtick, popped)
   /\ UNCHANGED <<k, processing, owner>>
 
@@ -142,12 +179,12 @@ Release(c) ==
   /\ pc[c] = "pq.loopExit"
   /\ processing' = FALSE /\ owner' = 0
   /\ pc' = [pc EXCEPT ![c] = "pq.released"]
-  /\ UNCHANGED <<k, queue, qtick, pending, qlen, popped, ticks, results>>
+  /\ UNCHANGED <<k, queue, qtick, pending, qlen, popped, ticks, results, wq>>
 
 QEnd(c) ==
   /\ pc[c] = "pq.released"
   /\ pc' = [pc EXCEPT ![c] = "pq.queueEnd"]
-  /\ UNCHANGED <<k, queue, qtick, pending, qlen, processing, owner, popped, ticks, results>>
+  /\ UNCHANGED <<k, queue, qtick, pending, qlen, processing, owner, popped, ticks, results, wq>>
 
 (* return of processQueue; the repaired code looks at the queue once more      *)
 Finish(c) ==
@@ -157,14 +194,14 @@ Finish(c) ==
      ELSE pc' = [pc EXCEPT ![c] = "return"]
   /\ results' = IF Id(c, k[c]) \in DOMAIN results THEN results
                 ELSE Assign(results, Id(c, k[c]), "executed")
-  /\ UNCHANGED <<k, queue, qtick, pending, qlen, processing, owner, popped, ticks>>
+  /\ UNCHANGED <<k, queue, qtick, pending, qlen, processing, owner, popped, ticks, wq>>
 
 (* the public call returns; the caller issues its next mutation                *)
 Return(c) ==
   /\ pc[c] = "return"
   /\ k' = [k EXCEPT ![c] = @ + 1]
   /\ pc' = [pc EXCEPT ![c] = IF k[c] < MutsPer THEN "start" ELSE "end"]
-  /\ UNCHANGED <<queue, qtick, pending, qlen, processing, owner, popped, ticks, results>>
+  /\ UNCHANGED <<queue, qtick, pending, qlen, processing, owner, popped, ticks, results, wq>>
 
 Step(c) ==
   \/ QAppend(c) \/ Prepend(c) \/ Enter(c) \/ Cas(c) \/ Lost(c) \/ FirstPop(c) \/ RunThenPop(c)
@@ -201,6 +238,16 @@ TickCount == qtick = 1 + Cardinality({i \in 1..Len(popped) : popped[i] \in DOMAI
 
 (* a mutation issued from inside a handler is queued, never run nested         *)
 NoNesting == \A id \in DOMAIN results : (Len(id) = 3) => results[id] = "queued"
+
+(* WhenQueue(tick) closes once the mutation of that tick has been processed,   *)
+(* accepted (clock moved or not) or canceled: an open channel's tick is ahead  *)
+(* of the machine's queue tick, or it is the tick of the transition that is    *)
+(* running right now (the drain loop parked between the pop and the end of     *)
+(* that transition); nothing is open once everybody is done                    *)
+WqOk(w, qt, inTx) == \A t \in w : t > qt \/ (t = qt /\ inTx)
+InTx == \E c \in Callers : pc[c] = "pq.popped" /\ popped # <<>>
+                             /\ popped[Len(popped)] \in DOMAIN ticks
+WhenQueueClosed == WqOk(wq, qtick, InTx) /\ (AllDone => wq = {})
 
 (* liveness: every issued mutation is eventually popped                        *)
 EventuallyProcessed ==
